@@ -348,6 +348,12 @@ def run(run):
     if rb.violated != 'CallUsesOwnTable':
         raise xl.MachineryError(f'design variant per-node binding was not rejected by TLC (CallUsesOwnTable): {rb.violated}')
     run.laws['variant C08_bad_registry_per_node.cfg rejected'] = rb.violated
+    # SnapshotInv of the core the registry machine refines is inductive: histories of ANY length (Apalache)
+    run.apalache('MC_RegistryApa', 'ConstInit', 'Init', 'SnapshotInv', 0)
+    run.apalache('MC_RegistryApa', 'ConstInit', 'IndInit', 'SnapshotInv', 1)
+    run.apalache('MC_RegistryApa', 'ConstInit', 'WeakInit', 'BoundInv', 1, expect_violation=True)
+    run.laws['non-inductive candidate BoundInv refuted (Apalache)'] = 'bound[f] <= registry[f] alone is not inductive'
+
     rblocks = pool.dump_blocks(rr.dump)
     nreg = 0
     for res in pool.pmap(registry_worker, rblocks, procs=4):
